@@ -73,6 +73,9 @@ def main():
         if prop == "C03":
             import props_source
             return props_source.run(prop, tier)
+        if prop == "C01":
+            import props_e2e
+            return props_e2e.run(prop, tier)
         print("unknown property", prop)
         return 2
     except (common.MachineryError, tlcrun.TLCError) as e:
